@@ -31,7 +31,7 @@ ABORT_EX = {"swap", "xval", "xvalall", "othermsg"}      # every honest peer's ag
 STARVE_NS = {"silent", "otherkey", "otherhash", "claim"}
 
 QUICK_MC = [("NodeSigsMC_quick.cfg", 600)]
-THOROUGH_MC = [("NodeSigsMC.cfg", 1700), ("NodeSigsMC_combine3.cfg", 900), ("NodeSigsMC_combine4.cfg", 1700)]
+THOROUGH_MC = [("NodeSigsMC.cfg", 1700), ("NodeSigsMC_combine3.cfg", 900)]   # NodeSigsMC_combine4.cfg (n = 4 with combined plans, 4.4M states, ~18 CPU-min) is an optional deep run
 CONTROLS = [("NodeSigsMC_ctl_nogate.cfg", "I2_SenderBound", "verifyPeerShareIdx without the index comparison: a forged claim of an honest peer's share index is admitted"),
             ("NodeSigsMC_ctl_nogate_blame.cfg", "I4_HonestNotBlamed", "... and the honest peer is blamed by the aggregation"),
             ("NodeSigsMC_ctl_noverify.cfg", "I1_LockSound", "--no-verify + 0xdeadbeef marker: a lock with a short, shifted node signature list is written"),
